@@ -209,8 +209,8 @@ func c11pStartProxy(t *testing.T, backends []string, ready bool, brokerHostPort 
 
 func TestVerifC11Proxy(t *testing.T) {
 	r := verifkit.Start(t, "C11", "proxy")
-	defer r.Finish("real cmd/proxy handleConnection on loopback; backend = the real broker binary built from the tree under test, run as a child process with in-memory metadata and in-memory S3. Same client, sentinel technique and oracle as the broker leg, for the proxy's own advertised table (parsed from its live ApiVersions reply): reply required for every advertised (key, version) (acks=0 produce excepted), correlation id, header shape per flexibility, body decodes with kmsg at that version and re-encodes to the same bytes; every other version in [0, codec max+2] of every key: a reply, if any, must decode at that version. Two degraded configurations (proxy not ready: no backend known; backend down: connection refused) exercise the proxy's locally built error replies; there only the replies that do arrive are judged. non-trivial = a reply with a body was received and decoded",
-		"read deadline 60 s is a watchdog only (=> inconclusive)",
+	defer r.Finish("real cmd/proxy handleConnection on loopback; backend = the real broker binary built from the tree under test, run as a child process with in-memory metadata and in-memory S3. Same client, sentinel technique and oracle as the broker leg, for the proxy's own advertised table (parsed from its live ApiVersions reply): reply required for every advertised (key, version) (acks=0 produce excepted), correlation id, header shape per flexibility, body decodes with kmsg at that version and re-encodes to the same bytes; every other version in [0, codec max+2] of every key: a reply, if any, must decode at that version. Two degraded configurations (proxy not ready: no backend known; backend down: connection refused) exercise the proxy's locally built error replies; there only the replies that do arrive are judged. Against the ready proxy the reply-size sweep of the broker leg runs as well (same templates as far as the proxy advertises them, string lengths 0..1100 for the first two templates in quick / all in thorough, reply sizes 2^k-8..2^k+8 for k=5..16 (quick: k=9..16 for the other templates), 2-8 requests plus sentinel pipelined per connection, broken batches re-asked alone, a reply not followed by the sentinel's reply frame reported after a control). non-trivial = a reply with a body was received and decoded",
+		"read deadline 60 s is a watchdog only (=> inconclusive), except: an advertised request (not acks=0, ready proxy) that gets no complete reply within the watchdog on an open connection is sent once more alone on a fresh connection; a second watchdog on an open connection is reported as advertised_version_not_served",
 		"proxy and broker each have their own in-memory metadata store (no etcd): the partition/group routers are nil, every request goes to the single backend",
 		"in the degraded configurations (not ready, backend down) a missing reply is counted, not judged (read watchdog 10 s there), and only the keys the proxy lists are driven",
 		"acks=0 produce requests always carry at least one topic",
@@ -241,6 +241,9 @@ func TestVerifC11Proxy(t *testing.T) {
 	if want("proxy") {
 		addr, stop = c11pStartProxy(t, []string{bk.addr}, true, bk.addr)
 		c11RunMatrix(r, c11Matrix{target: "proxy", addr: addr, salt: 5000000, requireReply: true, scale: 1, partitionZeroOnly: true, replay: replay})
+		if replay == nil {
+			c11RunSweep(r, c11Matrix{target: "proxy", addr: addr, salt: 5000000, requireReply: true}, r.N(2, 100), true)
+		}
 		stop()
 	}
 	// the broker must have survived (a dead backend would turn every later reply into a proxy-made error reply)
